@@ -197,6 +197,14 @@ def _run_live(c, lab):
     # ---- convergence with the exchange after the latest image (reports applied to the right orders)
     lab.deliver_image(0)
     if kind == "place" and any(x.startswith("TIMEOUT_ACCEPTED") for x in c["outcomes"]) and answered:
+        # the report said TIMEOUT (outcome unknown) and the exchange did take the bet: the local order must not have
+        # been declared complete - the strategy could then never cancel a bet that rests (and may match) at the exchange
+        for i, o in enumerate(orders):
+            if c["outcomes"][i].startswith("TIMEOUT_ACCEPTED") and o.complete:
+                b = next((x for x in ex.bets.values() if x.ref == o.customer_order_ref), None)
+                if b is not None and b.status == "EXECUTABLE":
+                    raise Violation("order-completed-on-timeout-while-bet-rests", (kind,),
+                                    "order %d is %s after a TIMEOUT report, bet %s rests at the exchange (%s)" % (i, o.status.name, b.bet_id, b.view()), c)
         return  # bet id of a timed-out synchronous placement is never learnt (judged by C11)
     local = {o.bet_id: o for o in m.blotter if o.bet_id}
     for b in ex.bets.values():
